@@ -99,6 +99,17 @@ func caseClass(kind string, op M) string { return kind + "|" + asStr(op["op"]) }
 
 func opKey(op M) string { return fmt.Sprintf("%x", sha256.Sum256([]byte(js(op))))[:16] }
 
+// safeOracle evaluates the oracle; a panic (only malformed operations produced by the shrinker
+// cause one) counts as "no finding".
+func safeOracle(s *Stream, op M, res any, exec func(M) any) (out []Finding) {
+	defer func() {
+		if r := recover(); r != nil {
+			out = nil
+		}
+	}()
+	return s.Oracle(op, res, exec)
+}
+
 // Run executes a stream and returns its report. Corpus operations run first.
 func Run(s *Stream, g *G, tier string, seed int64, modelBin string, corpus []M, replayDir string) (*Report, error) {
 	rep := &Report{Stream: s.Name, Tier: tier, Seed: seed, Dist: map[string]int{}}
@@ -217,7 +228,7 @@ func Run(s *Stream, g *G, tier string, seed int64, modelBin string, corpus []M, 
 	// oracles
 	if s.Oracle != nil {
 		for i, op := range ops {
-			fs := s.Oracle(op, impl[i], execC)
+			fs := safeOracle(s, op, impl[i], execC)
 			if len(fs) == 0 {
 				continue
 			}
@@ -242,7 +253,7 @@ func Run(s *Stream, g *G, tier string, seed int64, modelBin string, corpus []M, 
 					if sv, isS := r.(string); isS && sv == "unknown-op" {
 						return false
 					}
-					for _, f := range s.Oracle(c, r, func(o M) any { return canon(s.Exec(Normalize(o).(M))) }) {
+					for _, f := range safeOracle(s, c, r, func(o M) any { return canon(s.Exec(Normalize(o).(M))) }) {
 						if f.Prop == p {
 							return true
 						}
@@ -251,7 +262,7 @@ func Run(s *Stream, g *G, tier string, seed int64, modelBin string, corpus []M, 
 				})
 				r := canon(s.Exec(Normalize(small).(M)))
 				var msgs []string
-				for _, f := range s.Oracle(small, r, func(o M) any { return canon(s.Exec(Normalize(o).(M))) }) {
+				for _, f := range safeOracle(s, small, r, func(o M) any { return canon(s.Exec(Normalize(o).(M))) }) {
 					if f.Prop == p {
 						msgs = append(msgs, f.Msg)
 					}
